@@ -4,7 +4,9 @@
 
 #include <etl/_config/all.hpp>
 
+#include <etl/_cmath/copysign.hpp>
 #include <etl/_concepts/integral.hpp>
+#include <etl/_limits/numeric_limits.hpp>
 #include <etl/_type_traits/is_constant_evaluated.hpp>
 #include <etl/_type_traits/is_same.hpp>
 
@@ -14,11 +16,19 @@ namespace detail {
 template <typename T>
 [[nodiscard]] constexpr auto rint_fallback(T arg) noexcept -> T
 {
-    if constexpr (sizeof(T) <= sizeof(long)) {
-        return static_cast<T>(static_cast<long>(arg));
-    } else {
-        return static_cast<T>(static_cast<long long>(arg));
+    // values of this magnitude (also infinities) are integers already, NaN compares false and is returned
+    constexpr auto noFraction = T(1) / etl::numeric_limits<T>::epsilon();
+    if (not(arg > -noFraction and arg < noFraction)) {
+        return arg;
     }
+
+    // round to nearest, ties to even (the default rounding mode)
+    auto const whole = static_cast<T>(static_cast<long long>(arg));
+    auto const frac  = arg < T(0) ? whole - arg : arg - whole;
+    auto const odd   = static_cast<long long>(whole) % 2 != 0;
+    auto const away  = frac > T(0.5) or (frac == T(0.5) and odd);
+    auto const res   = away ? (arg < T(0) ? whole - T(1) : whole + T(1)) : whole;
+    return etl::detail::copysign(res, arg); // rint(-0.25) is -0.0
 }
 
 template <typename T>
